@@ -192,3 +192,78 @@ func HarnessC11Par(onceForm, kind, maxSwitches int) {
 	}
 	vnCover("C11.par-checked")
 }
+
+// HarnessC11Target — the run-once function is itself the TARGET of several
+// direct calls with different arguments (a side-effect-only initialiser has no
+// outputs at all; others return 1–2 values and/or an error). Between the calls
+// the result is, symbolically, handed to the public value-set accessors
+// (Output().FromResult), which must not disturb what later calls observe.
+//
+//	form  hFormPositional / hFormStruct / hFormPtrStruct / hFormBuilt
+//	nOut  0, 1 or 2 outputs;  hasErr 1: the function also returns an error (symbolically non-nil)
+func HarnessC11Target(form, nOut, hasErr int) {
+	hOrderSites(0)
+	w := &hWorld{}
+	outs := []hLabel{{Name: "a", T: hTP1}, {T: hTP2}}[:nOut]
+	if form == hFormPositional {
+		outs = []hLabel{{T: hTP1}, {T: hTP2}}[:nOut]
+	}
+	fails := false
+	if hasErr == 1 {
+		fails = vnBool("fails")
+	}
+	w.Target = hFuncSpec{ID: 0, Form: form, In: []hLabel{{T: hTP0}}, Out: outs, HasErr: hasErr == 1, Fails: fails, Once: true}
+	if _, ok := w.hBuildAll(); !ok {
+		vnAssume(false)
+	}
+	f := w.Funcs[0]
+	vnNote(fmt.Sprintf("run-once TARGET in %s form with %d outputs, error result %d, fails=%v; three direct calls", hFormNames[form], nOut, hasErr, fails))
+	vnOnDivergence("", "")
+	executions := 0
+	var first []hVal
+	for call := 0; call < 3; call++ {
+		x := vnPayload("x", call)
+		var r Result
+		if hGuardPlain(func() { r = f.Call(Typed(hP0{x})) }) {
+			vnAssert(false, "C11.target.call-does-not-panic")
+			return
+		}
+		executions = 0
+		for _, ex := range w.Log {
+			if ex.Fn == 0 {
+				executions++
+			}
+		}
+		vnAssert(executions == 1, "C11.target.body-executed-exactly-once-over-all-calls")
+		if executions != 1 {
+			return
+		}
+		if fails {
+			vnAssert(r.Err() == w.Errs[0], "C11.target.every-call-sees-the-first-error")
+			continue
+		}
+		vnAssert(r.Err() == nil, "C11.target.call-succeeds")
+		if r.Err() != nil {
+			return
+		}
+		if call == 0 {
+			first = w.Log[0].Out
+			vnAssert(w.Log[0].Recv[0].ID == vnPayload("x", 0), "C11.target.first-execution-sees-the-first-call's-argument")
+		}
+		ids := hResultIDs(r)
+		vnAssert(len(ids) == nOut, "C11.target.result-shape")
+		if len(ids) != nOut {
+			return
+		}
+		for j := range ids {
+			vnAssert(ids[j].T == first[j].L.T && ids[j].ID == first[j].ID, "C11.target.every-call-returns-the-first-execution's-outputs")
+		}
+		if nOut > 0 && vnBool("useAccessors", call) {
+			hGuardPlain(func() {
+				_ = f.Output().FromResult(r)
+				_ = f.Output().Values()
+			})
+		}
+	}
+	vnCover("C11.target-checked")
+}
